@@ -137,7 +137,15 @@ struct MetaEngine : Engine {
 		if (model.size() == 0) {
 			body = w.chance(1, 2) ? "Just a paragraph" + eol + eol + "second" + eol : "# Heading" + eol + eol + "text" + eol;
 			tail = body; block.clear();
-		} else if (term <= 1) { body = term == 0 ? "Body *text* here." + eol + eol + "Second: paragraph" + eol : "# Heading" + eol; tail = eol + body; }
+		} else if (term <= 1) {
+			// "x all bodies": what follows the blank line is never metadata, whatever it looks like
+			static const char * bodies[] = {
+				"Body *text* here.\n\nSecond: paragraph\n", "# Heading\n", "Looks: like a key\nAnother: one\n\ntext\n", "---\n\nafter a rule\n", "[ref]: http://example.com/ \"t\"\n\nuses [ref]\n",
+				"| a | b |\n| --- | --- |\n| c: d | e |\n", "    indented: code\n", "* item: one\n* item two\n", "<div>\nhtml: block\n</div>\n", "Title: not the title\n", "last line without newline: x"};
+			std::string b0 = term == 0 ? bodies[0] : term == 1 && w.chance(1, 2) ? bodies[1] : bodies[w.below(sizeof(bodies) / sizeof(bodies[0]))];
+			for (char c : b0) { if (c == '\n') body += eol; else body.push_back(c); }
+			tail = eol + body;
+		}
 		else if (term == 2) { tail = ""; }                                   // EOF right after the newline of the last meta line
 		else { tail = ""; block.resize(block.size() - eol.size()); }         // EOF without newline
 		p["lines"] = mlines;
